@@ -20,6 +20,13 @@ def c07(ck, tier, seed):
         res = vlib.run_driver(binary, "conc", {"kind": k, "seed": seed * 3 + i, "tier": tier}, od, timeout=900)
         files += ck.add_driver(res)
         cmds.append(" ".join(map(str, res["cmd"])))
+    # an application thread against the background collector (capacities 128..512: the node count crosses the
+    # high-water mark again and again); snapshots under the exclusive lock
+    for i, k in enumerate(KINDS):
+        od = os.path.join(ck.outdir, "bggc-" + k)
+        res = vlib.run_driver(binary, "bggc", {"kind": k, "seed": seed * 23 + i, "tier": tier}, od, timeout=900)
+        files += ck.add_driver(res)
+        cmds.append(" ".join(map(str, res["cmd"])))
     ck.sample_from(files)
     results = vlib.validate("TraceManager", files, ["C07"])
     ck.add_validation(results, driver_cmd=cmds)
